@@ -10,6 +10,7 @@ FIRST = {
     "C07-a1": "missed (macro layer not analysed yet)", "C07-a2": "missed", "C07-a3": "missed", "C17-a3": "missed", "C19-a2": "missed", "C19-a3": "missed",
     "C12-a3": "caught by C01/C07 only", "C09-a3": "missed (`unsafe fn` exemption too wide)", "C10-a1": "missed", "C10-a2": "missed", "C10-a3": "INCONCLUSIVE only",
     "C06-a1": "INCONCLUSIVE only", "C06-a3": "caught by C14/C15/C21/C22 only", "C14-a3": "caught by C12/C20 only", "C18-a1": "missed", "C18-a2": "INCONCLUSIVE only", "C18-a3": "missed",
+    "C16-a1": "caught by C23/C24 only", "C16-a3": "caught by C17 only",
 }
 for d in sorted(os.listdir(os.path.join(ROOT, "seeded"))):
     p = os.path.join(ROOT, "seeded", d)
